@@ -275,19 +275,37 @@ func ruleDeclaredOrder(c *eng.Ctx) {
 		})
 		c.Check(okMan, R, "epubdoc.(*Reader).loadChapters#manifest", fn.Pos(), "manifest item found by the spine item's idref", "the manifest is not looked up with the spine item's idref")
 		okHref := false
+		resSet := map[*ssa.Function]bool{}
+		for _, r := range epubHrefResolvers(p) {
+			resSet[r] = true
+		}
 		if res := epubHrefResolver(p); res != nil {
-			for _, ci := range eng.Calls(fn, false, func(_ string, ci ssa.CallInstruction) bool { return eng.StaticCallee(ci) == res }) {
-				for _, a := range ci.Common().Args {
-					for v := range eng.Slice(a, nil) {
-						if f, ok := eng.AsField(v); ok && f.Field == "Href" {
-							okHref = true
-						}
+			resSet[res] = true
+		}
+		for _, ci := range eng.Calls(fn, false, func(string, ssa.CallInstruction) bool { return true }) {
+			cands, ok := eng.DynCallees(ci)
+			if !ok {
+				continue
+			}
+			all := len(cands) > 0
+			for _, cal := range cands {
+				if !resSet[cal] {
+					all = false
+				}
+			}
+			if !all {
+				continue
+			}
+			for _, a := range ci.Common().Args {
+				for v := range eng.Slice(a, nil) {
+					if f, ok := eng.AsField(v); ok && f.Field == "Href" {
+						okHref = true
 					}
 				}
 			}
-			if res == fn {
-				okHref = true // resolved in place; R18.2 reads the decoding here
-			}
+		}
+		if resSet[fn] {
+			okHref = true // resolved in place; R18.2 reads the decoding here
 		}
 		c.Check(okHref, R, "epubdoc.(*Reader).loadChapters#href", fn.Pos(), "content file located through resolveHref(item.Href)", "the chapter file is not located through resolveHref(item.Href)")
 	}
@@ -337,6 +355,49 @@ func epubHrefResolver(p *eng.Prog) *ssa.Function {
 	return p.Func("epubdoc.(*Reader).resolveHref")
 }
 
+// epubHrefResolvers: every function loadChapters can hand the item's Href to and get a string back from, including
+// functions reached through a function value (a resolution strategy chosen once by a factory).
+func epubHrefResolvers(p *eng.Prog) []*ssa.Function {
+	lc := p.Func("epubdoc.(*Reader).loadChapters")
+	if lc == nil {
+		return nil
+	}
+	var out []*ssa.Function
+	seen := map[*ssa.Function]bool{}
+	for _, ci := range eng.Calls(lc, false, func(string, ssa.CallInstruction) bool { return true }) {
+		fromHref := false
+		for _, a := range ci.Common().Args {
+			for v := range eng.Slice(a, nil) {
+				if f, ok := eng.AsField(v); ok && f.Field == "Href" {
+					fromHref = true
+				}
+			}
+		}
+		if !fromHref {
+			continue
+		}
+		cands, ok := eng.DynCallees(ci)
+		if !ok {
+			continue
+		}
+		for _, cal := range cands {
+			if cal.Pkg != lc.Pkg || cal.Blocks == nil || seen[cal] {
+				continue
+			}
+			res := cal.Signature.Results()
+			if res.Len() != 1 {
+				continue
+			}
+			if b, ok := res.At(0).Type().Underlying().(*types.Basic); !ok || b.Kind() != types.String {
+				continue
+			}
+			seen[cal] = true
+			out = append(out, cal)
+		}
+	}
+	return out
+}
+
 func ruleHrefDecode(c *eng.Ctx) {
 	const R = "R18.2-HREF-DECODE"
 	c.Rule(R, "resolveHref percent-decodes with url.PathUnescape (QueryUnescape would turn '+' into a space) and joins the result to the OPF directory", 2, 0)
@@ -352,17 +413,41 @@ func ruleHrefDecode(c *eng.Ctx) {
 			cl = append(cl, g)
 		}
 	}
-	q := len(eng.CallsNamed(fn, false, "net/url.QueryUnescape")) > 0
-	pth := len(eng.CallsNamed(fn, false, "net/url.PathUnescape")) > 0
-	c.Check(pth && !q, R, "epubdoc.(*Reader).resolveHref", fn.Pos(), "url.PathUnescape", "hrefs are not decoded with url.PathUnescape: a '+' in a file name becomes a space and the chapter is silently dropped")
-	join := false
-	for _, ci := range eng.CallsNamed(fn, false, "path.Join") {
-		for v := range eng.SliceInter(ci.Common().Args[0], nil, cl) {
-			if f, ok := eng.AsField(v); ok && f.Field == "baseDir" {
-				join = true
+	// every function the href can be handed to decodes it (itself or in the helper it calls); with several
+	// strategies (one per case of the base directory) at least one joins the base directory
+	resolvers := epubHrefResolvers(c.P)
+	if len(resolvers) == 0 {
+		resolvers = []*ssa.Function{fn}
+	}
+	q, pth, join := false, true, false
+	for _, rf := range resolvers {
+		group := []*ssa.Function{rf}
+		for _, ci := range eng.Calls(rf, false, func(string, ssa.CallInstruction) bool { return true }) {
+			if g := eng.StaticCallee(ci); g != nil && g.Pkg == rf.Pkg && g.Blocks != nil {
+				group = append(group, g)
 			}
 		}
+		hasP := false
+		for _, g := range group {
+			if len(eng.CallsNamed(g, false, "net/url.QueryUnescape")) > 0 {
+				q = true
+			}
+			if len(eng.CallsNamed(g, false, "net/url.PathUnescape")) > 0 {
+				hasP = true
+			}
+			for _, ci := range eng.CallsNamed(g, false, "path.Join") {
+				for v := range sliceWithFreeVars(ci.Common().Args[0], append(cl, g)) {
+					if f, ok := eng.AsField(v); ok && f.Field == "baseDir" {
+						join = true
+					}
+				}
+			}
+		}
+		if !hasP {
+			pth = false
+		}
 	}
+	c.Check(pth && !q, R, "epubdoc.(*Reader).resolveHref", fn.Pos(), "url.PathUnescape", "hrefs are not decoded with url.PathUnescape: a '+' in a file name becomes a space and the chapter is silently dropped")
 	c.Check(join, R, "epubdoc.(*Reader).resolveHref#base", fn.Pos(), "joined to the package directory", "the href is no longer resolved relative to the OPF file's directory")
 	// module-wide: QueryUnescape must not be used on hrefs anywhere in epubdoc
 	for _, f := range c.P.ModuleFuncs() {
